@@ -130,7 +130,7 @@ pub fn meta(prop: Prop) -> Meta {
         Prop::C02 => Meta {
             level: "fault_enumeration",
             rule: "one evaluation = one simulated TLS byte stream (1..10 records, all content types, boundary-biased declared lengths incl. the 16640/16641 cap, length lies, trailing garbage, hostile bit/byte faults) delivered to the monitor by a seeded segmentation schedule; at EVERY delivery event the real parse_tls_raw_record / parse_tls_encrypted / parse_tls_plaintext / parse_tls_record_header are applied to the receive buffer and compared with the 5-byte reference framer, and a Needed-driven reader must emit every complete record; under the seg-dribble and boundary-dribble schedules every cut point 0..=5+len of every record in the stream is enumerated; distinct = distinct 64-bit fingerprints of the abstract trace (per framing attempt: content type x outcome classes x buffer size class); non-trivial = at least 2 records or 2 delivery events or a fault fired",
-            fault_kinds: &["seg-dribble", "trailing-inflight", "eof", "length-lie", "garbage-inject", "bitflip", "byte-drop", "byte-insert", "malformed-first", "malformed-tail", "coalesce", "many-small-records"],
+            fault_kinds: &["seg-dribble", "trailing-inflight", "eof", "length-lie", "garbage-inject", "bitflip", "byte-drop", "byte-insert", "malformed-first", "malformed-tail", "coalesce", "many-small-records", "bulk-inflight-64k"],
             cell_spaces: vec![("cut", None)],
             real: &["parse_tls_raw_record", "parse_tls_encrypted", "parse_tls_plaintext", "parse_tls_record_header", "Debug of returned records"],
             stub: &["peer message generator", "reference RFC encoder", "record layer", "TCP-like pipe with seeded segmentation / EOF / corruption", "reference 5-byte framer", "Needed-driven reader"],
